@@ -13,7 +13,7 @@ class SqlError(Exception):
 
 _tok = re.compile(r"\s*(?:(\?\d*)|([A-Za-z_][A-Za-z_0-9]*)|(\d+)|('(?:[^']|'')*')|(>=|<=|<>|!=|==|\|\||[(),=<>*.;+\-/]))")
 
-KEYWORDS = {"SELECT", "FROM", "WHERE", "AND", "OR", "NOT", "ORDER", "BY", "GROUP", "LIMIT", "DESC", "ASC", "AS", "INSERT",
+KEYWORDS = {"FILTER", "SELECT", "FROM", "WHERE", "AND", "OR", "NOT", "ORDER", "BY", "GROUP", "LIMIT", "DESC", "ASC", "AS", "INSERT",
             "REPLACE", "INTO", "VALUES", "CREATE", "TABLE", "IF", "EXISTS", "PRIMARY", "ALTER", "ADD", "COLUMN",
             "CASE", "WHEN", "THEN", "ELSE", "END", "NULL", "TRUE", "FALSE", "UPDATE", "DELETE", "DROP", "SET", "IGNORE",
             "PRAGMA", "BEGIN", "COMMIT", "ROLLBACK", "HAVING", "OFFSET", "UNIQUE", "DEFAULT", "INDEX", "ON", "CONFLICT",
@@ -184,6 +184,20 @@ class _P:
                         if self.accept("op", ")"):
                             break
                         self.expect("op", ",")
+                if self.kw("FILTER"):
+                    # aggregate FILTER (WHERE cond): the aggregate over the rows satisfying cond.  COUNT(*) FILTER (WHERE c) is
+                    # rewritten to the equivalent COUNT(CASE WHEN c THEN 1 END), SUM(e) FILTER to SUM(CASE WHEN c THEN e ELSE 0 END)
+                    self.expect("op", "(")
+                    if not self.kw("WHERE"):
+                        raise SqlError("FILTER without WHERE")
+                    cond = self.expr()
+                    self.expect("op", ")")
+                    fn = x[1].lower()
+                    if fn == "count" and len(args) == 1:
+                        return ("func", x[1], (("case", ((cond, ("num", 1)),), None),))
+                    if fn in ("sum", "total") and len(args) == 1:
+                        return ("func", x[1], (("case", ((cond, args[0]),), ("num", 0)),))
+                    raise SqlError("FILTER on %s not supported" % x[1])
                 return ("func", x[1], tuple(args))
             if self.accept("op", "."):
                 y = self.expect("id")
